@@ -222,6 +222,11 @@ pub fn rand_elem(rng: &mut ChaCha20Rng) -> [u8; 24] {
     0 => [0u8; 24],
     1 => bf::to_le24(&(bf::p() - BigUint::one())),
     2 => bf::to_le24(&BigUint::one()),
+    3 => {
+      // canonical but above 2^128: the 12451 values of the top band
+      let off: u32 = rng.gen_range(0..12451);
+      bf::to_le24(&((BigUint::one() << 128) + BigUint::from(off)))
+    }
     _ => {
       let mut b = [0u8; 24];
       rng.fill(&mut b[..16]);
@@ -577,6 +582,16 @@ pub fn group(ctx: &Ctx, g: u64) -> Vec<Case> {
         }
       };
       add("honest".into(), join_lines(&lines));
+      // authentic adss shares (valid MAC) of communes with other message / coin lengths
+      for (ml, rl) in [(0usize, 32usize), (5, 32), (33, 32), (32, 0), (31, 5), (64, 64), (1000, 1)] {
+        let mm = rand_bytes(rng, ml);
+        let rr = rand_bytes(rng, rl);
+        let ls: Vec<String> = (0..t + 1)
+          .filter_map(|_| adss::Commune::new(t, mm.clone(), rr.clone(), None).share().ok())
+          .map(|s| BASE64_STANDARD.encode(s.to_bytes()))
+          .collect();
+        add(format!("authentic-commune |M|={} |R|={}", ml, rl), join_lines(&ls));
+      }
       for s in ["", "\n", "!!!", "AAAA", "A", "====", "AA==\nAA==", " ", "\r\n", "é", "AAAAAAAAAAAAAAAAAAAAAAAAAAAAAAAAAAAAAAAAAAA="] {
         add(format!("literal:{:?}", s), s.as_bytes().to_vec());
       }
